@@ -107,7 +107,7 @@ type panicStruct struct {
 func (s *Scenario) PanicValue(id string) any {
 	switch s.PanicKind {
 	case "error":
-		return fmt.Errorf("panic-error(%s)", id)
+		return errors.New("panic-error(" + id + ")")
 	case "struct":
 		return panicStruct{A: len(id), B: id}
 	}
@@ -145,14 +145,60 @@ type Run struct {
 	Outs     []*probe.Out
 	Returned []bool
 	RetVC    []vs.VC
-	Errs     map[string]error
+	Errs     map[string]error // filled by finalize() on the explorer's goroutine
 	Panics   map[string]any
+	errLog   []errEnt // written by hooks on thread goroutines (no maps, no fmt there: see Hash in package probe)
+	panicLog []panicEnt
 	cancel   func()
 	gate     *vs.Chan[struct{}]
 	Misc     []Finding
 	Emits    []emitRec
 	ctx      context.Context
 	CancelVC vs.VC
+}
+
+type errEnt struct {
+	key string
+	err error
+}
+
+type panicEnt struct {
+	id  string
+	val any
+}
+
+func (r *Run) errOf(key string) error {
+	for _, e := range r.errLog {
+		if e.key == key {
+			return e.err
+		}
+	}
+	return nil
+}
+
+// finalize builds the lookup maps the oracles use (explorer goroutine).
+func (r *Run) finalize() {
+	if r.Errs != nil {
+		return
+	}
+	r.Errs, r.Panics = map[string]error{}, map[string]any{}
+	for _, e := range r.errLog {
+		r.Errs[e.key] = e.err
+	}
+	for _, e := range r.panicLog {
+		r.Panics[e.id] = e.val
+	}
+}
+
+func argsString(a []uint64) string {
+	s := "["
+	for i, x := range a {
+		if i > 0 {
+			s += " "
+		}
+		s += strconv.FormatUint(x, 10)
+	}
+	return s + "]"
 }
 
 type argRec struct {
@@ -179,7 +225,7 @@ func (h hooks) decision(id string, args []uint64) string {
 
 func (h hooks) Start(id string, ctx context.Context, args []uint64) probe.Decision {
 	r := h.r
-	vs.Emit(id, "start", fmt.Sprint(args))
+	vs.Emit(id, "start", argsString(args))
 	c := &call{ID: id, Args: append([]uint64{}, args...), Tid: vs.Tid()}
 	c.Ev = vs.Event{VC: vs.Now()}
 	r.Calls = append(r.Calls, c)
@@ -199,17 +245,17 @@ func (h hooks) Start(id string, ctx context.Context, args []uint64) probe.Decisi
 		if len(args) > 0 && strings.Contains(id, ".i") {
 			key = id + "#" + strconv.FormatUint(args[0], 10)
 		}
-		d.Err = r.Errs[key]
+		d.Err = r.errOf(key)
 		if d.Err == nil {
-			d.Err = fmt.Errorf("%s failed", key)
-			r.Errs[key] = d.Err
+			d.Err = errors.New(key + " failed")
+			r.errLog = append(r.errLog, errEnt{key, d.Err})
 		}
 	case probe.Panic:
 		if r.Sc.PanicKind == "runtime" {
 			d.RTPanic = true
 		} else {
 			d.PanicVal = r.Sc.PanicValue(id)
-			r.Panics[id] = d.PanicVal
+			r.panicLog = append(r.panicLog, panicEnt{id, d.PanicVal})
 		}
 	}
 	return d
@@ -243,7 +289,7 @@ func (h hooks) Gate() { h.r.gate.Recv() }
 
 // Body returns the thread-0 body and the Run it fills.
 func (s *Scenario) Body() (func(), *Run) {
-	r := &Run{Sc: s, Errs: map[string]error{}, Panics: map[string]any{}}
+	r := &Run{Sc: s}
 	n := s.Instances
 	if n < 1 {
 		n = 1
@@ -336,7 +382,7 @@ type recEmitter struct {
 }
 
 func (e *recEmitter) rec(scope, ev string, arg any) {
-	vs.Emit(fmt.Sprintf("em%d:%s", e.idx, scope), ev, fmt.Sprint(arg))
+	vs.Emit("em"+strconv.Itoa(e.idx)+":"+scope, ev, arg)
 	e.r.Emits = append(e.r.Emits, emitRec{Em: e.idx, Scope: scope, Ev: ev, Arg: arg, VC: vs.Now(), Tid: vs.Tid()})
 }
 
@@ -411,6 +457,7 @@ func panicValueMatches(got, want any) bool {
 
 // Check evaluates every oracle on one finished execution.
 func Check(r *Run, ex *vs.Exec) []Finding {
+	r.finalize()
 	var out []Finding
 	add := func(p, f string, a ...any) { out = append(out, Finding{p, fmt.Sprintf(f, a...)}) }
 	s := r.Sc
